@@ -155,15 +155,20 @@ def run_real(h):
             elif k == 'E':
                 p, child = objs[op[1]], objs[op[2]]
                 valid = validity(p, child)
-                mops.append('E.%d.%d.%d.%d' % (op[1], op[2], op[3], valid))
-                p.children.set(child.name, child, op[3])
+                if id(p) in tainted:
+                    # after a replace_child(old, new) with different names (never issued by the API) the by-name index of this element is not the
+                    # list filtered by name any more: operations addressed by name and index have no defined meaning on it
+                    mops.append('N')
+                else:
+                    mops.append('E.%d.%d.%d.%d' % (op[1], op[2], op[3], valid))
+                    p.children.set(child.name, child, op[3])
             elif k == 'D':
                 try:
                     objs[op[1]].children._find_name(op[2])
                     resolvable = True
                 except HL7apyException:
                     resolvable = False          # a name the element does not know: refused before any child is looked at
-                if resolvable:
+                if resolvable and id(objs[op[1]]) not in tainted:
                     mops.append('D.%d.%s.%d' % (op[1], op[2], op[3]))
                     objs[op[1]].children.remove_by_name(op[2], op[3])
                 else:
